@@ -85,10 +85,10 @@ def gen_cases(tier, seed):
         for i in range(n):
             yield {"kind": "exact", "model": name, "seed": r.randrange(1 << 30)}
     for name in GM.MODEL_NAMES:
-        for i in range(4 if tier == "quick" else 150):
-            if name in ("FHVST", "WVST", "Virial") and i % 2:
+        for i in range((8 if name == "Virial" else 4) if tier == "quick" else 150):
+            if name in ("FHVST", "WVST") and i % 2:
                 continue
-            yield {"kind": "rmse", "model": name, "seed": r.randrange(1 << 30)}
+            yield {"kind": "rmse", "model": name, "seed": r.randrange(1 << 30), "origin": i % 4 != 3 if name == "Virial" else i % 2 == 1}
     for i in range(10 if tier == "quick" else 400):
         yield {"kind": "guess", "seed": r.randrange(1 << 30)}
     for i in range(30 if tier == "quick" else 1500):
@@ -286,6 +286,10 @@ def _run_rmse(case, ctx):
     if name in ("DR", "DA", "BET", "GAB"):
         p = p / p.max() * 0.6
     opt = {"add_point": True} if name == "Virial" else None
+    if name in ("Virial", "Henry", "Langmuir", "Toth") and case.get("origin"):
+        # measured series usually start with the origin (the Virial fit has to leave such points out: ln(p/n))
+        p, l = numpy.concatenate([[0.0], p]), numpy.concatenate([[0.0], l])
+        ctx.count("rmse_with_origin_point", name)
     res = _call(pygaps.ModelIsotherm, pressure=list(p), loading=list(l), model=name, material="verif-c12", adsorbate=ads, temperature=T, optimization_params=opt, **units)
     ctx.case(["rmse", name, case["seed"]])
     if res[0] != "ok":
